@@ -502,6 +502,18 @@ def check_wrappers(case, rec):
                         want, mag = ok.summate_fourier(g._spectrum_factor, g._modes, g._z_1, g._z_2, model.isometrize(pos))
                     err = np.abs(f - want)
                     require(bool(np.all(err <= 1e-11 * np.maximum(mag, 1e-300))), f"{w}: field is not the defining mode sum of the generator's own arrays (max dev {float(np.max(err)):.3g})", dict(tags, kind="kernel_identity"))
+                    if w == "srf" and case.get("big") in (1, 2, 3) and nt is None:
+                        # a request of more than 2^26 point-mode pairs in one call: every point still gets its own mode sum
+                        nb_ = 2**26 // 1000 + 37
+                        srf_b = gs.SRF(model, mode_no=1000, seed=case["seed"] % 1000)
+                        pb_ = np.random.RandomState(case["seed"] + 7).uniform(-3, 3, (dim, nb_)) * sc_
+                        fb_ = np.asarray(lib(srf_b, pb_, _tags=tags))
+                        sel = np.r_[0:5, nb_ // 2 : nb_ // 2 + 5, nb_ - 9 : nb_]
+                        fs_ = np.asarray(lib(srf_b, pb_[:, sel], _tags=tags))
+                        rec.label("srf_request_above_2^26_pairs")
+                        require(bool(np.allclose(fb_[sel], fs_, rtol=1e-10, atol=1e-12 * math.sqrt(float(model.var)))),
+                                f"srf: {nb_} points x 1000 modes in one call: values at the first / middle / last points {fb_[sel].tolist()} differ from the same points asked for alone {fs_.tolist()}",
+                                dict(tags, kind="wrapper_large_request"))
                     results.append(np.asarray(f))
                 elif w == "krige":
                     model = gs.Exponential(dim=dim, var=1.2, len_scale=2.0)
